@@ -262,6 +262,43 @@ def r7(ctx):
     C01.r6(ctx)
 
 
+def r8(ctx):
+    """the filter VALUE: the constructors wrap every key they are given (a filter that lost a key makes the scope too small)"""
+    import re
+    IFL = "barter::engine::state::instrument::filter::InstrumentFilter"
+    for nm, var in (("exchanges", "Exchanges"), ("instruments", "Instruments"), ("underlyings", "Underlyings")):
+        b = ctx.fibody(name=nm, self_adt=IFL, trait="")
+        tab = common.case_table(b)
+        p = b.param_name(1)
+        ctx.check("InstrumentFilter::" + nm, tab == {"true": ["InstrumentFilter::%s{0: OneOrMany::from_iter(%s)}" % (var, p)]},
+                  "the %s filter holds the collection of ALL the keys given" % var, got=tab, key="wraps-all")
+    OOM = "barter_integration::collection::one_or_many::OneOrMany"
+    b = ctx.ibody(ctx.find(name="from_iter", self_adt=OOM, trait="std::iter::FromIterator"))
+
+    def plain(x):
+        prev = None
+        while prev != x:
+            prev = x
+            x = re.sub(r"mut\[[a-z_,]*\]\(((?:[^()]|\([^()]*\))*)\)", r"\1", x)
+        return x
+    tab = {plain(k): [plain(v) for v in vs] for k, vs in common.case_table(b).items()}
+    v = "Iterator::collect(iter)"
+    ones = ["OneOrMany::One{0: Vec::swap_remove(%s, 0)}" % v, "OneOrMany::One{0: Vec::remove(%s, 0)}" % v]
+    ok = set(tab) == {"(Vec::len(%s) in {1})" % v, "(Vec::len(%s) not in {1})" % v} and \
+        tab["(Vec::len(%s) not in {1})" % v] == ["OneOrMany::Many{0: %s}" % v] and \
+        len(tab["(Vec::len(%s) in {1})" % v]) == 1 and tab["(Vec::len(%s) in {1})" % v][0] in ones
+    ctx.check("OneOrMany::from_iter", ok, "One(the element) exactly when the iterator yields one element, otherwise Many(all of them) - "
+              "decided on the collected length, not on an iterator size hint", got=tab, key="keeps-all")
+
+
+def r9(ctx):
+    """a request of the scope is delivered on the link of ITS OWN exchange (= C03.R1, C03.R7): send_request looks the transmitter up
+    by the request's exchange, and `find` answers with the transmitter stored at that very index"""
+    from rules import C03
+    C03.r1(ctx)
+    C03.r7(ctx)
+
+
 RULES = [
     ("R1", "filter table of InstrumentStates::filtered / filtered_mut, sibling agreement", r1),
     ("R2", "Order::to_request_cancel per tracked state", r2),
@@ -270,4 +307,6 @@ RULES = [
     ("R5", "Engine::action dispatch table", r5),
     ("R6", "the actions touch state only via record_in_flight_* and use the command's own filter", r6),
     ("R7", "in-flight recorders and open_meta / to_active helpers (repeat-cancel idempotence depends on them) = C01.R5, C01.R6", r7),
+    ("R8", "filter construction: every key given is kept (InstrumentFilter constructors, OneOrMany::from_iter)", r8),
+    ("R9", "requests of the scope are delivered on their own exchange's link (= C03.R1, C03.R7)", r9),
 ]
